@@ -81,5 +81,5 @@ def rbytes_pattern(kind, n, seed=0):
     if kind == "inc":
         return bytes((i * 37 + 11) & 0xFF for i in range(n))
     import random
-    r = random.Random("rb/%s/%d" % (seed, n))
+    r = random.Random("rb/%s/%d%s" % (seed, n, "" if kind == "rnd" else "/" + kind))
     return bytes(r.getrandbits(8) for _ in range(n))
